@@ -434,6 +434,7 @@ class EngineBase(metaclass=ABCMeta):
         written = set()
         with open(sourcefile, encoding="utf-8") as infile:
             with open(outputfile, mode="w", encoding="utf-8") as outfile:
+                to_write = ""
                 for line in infile:
                     to_write = line
                     match = reg.match(line)
@@ -447,7 +448,11 @@ class EngineBase(metaclass=ABCMeta):
                 # Add settings not yet written:
                 for key, value in settings.items():
                     if key not in written:
-                        outfile.write(f"{key} {delim} {value}\n")
+                        if to_write and not to_write.endswith("\n"):
+                            # the template's last line had no newline
+                            outfile.write("\n")
+                        to_write = f"{key} {delim} {value}\n"
+                        outfile.write(to_write)
 
     @staticmethod
     def _read_input_settings(
